@@ -127,6 +127,8 @@ pub fn derive(r: &mut Rng, c: &DocCfg, v: &Value<'static>) -> Value<'static> {
         1 => gen_value(r, c, 0),
         2 => Value::Array(vec![v.clone()]),
         3 => match v { Value::Array(vs) if !vs.is_empty() => vs[r.below(vs.len() as u64) as usize].clone(), Value::Object(o) if !o.is_empty() => o.values().nth(r.below(o.len() as u64) as usize).unwrap().clone(), _ => gen_scalar(r, c) },
+        // two independent differences (an early value AND a later key, an element AND the length, ...)
+        4 | 5 => { let m = mutate(r, c, v); mutate(r, c, &m) }
         _ => mutate(r, c, v),
     }
 }
@@ -725,6 +727,21 @@ pub fn gen_sub(prop: &str, tier: &str, seed: u64) -> Out {
                     o.push(format!("tj {} contains {} {}", r.next() % 1000000, ha, hb));
                 }
             }
+            // every ordered pair of a core set of numbers (both zeros in every representation, NaN of either
+            // sign, infinities, 2^53 neighbours), bare and as a member of an array and of an object
+            if prop != "C14" {
+                let nums: Vec<Number> = vec![Number::UInt64(0), Number::Float64(0.0), Number::Float64(-0.0), Number::UInt64(1), Number::Float64(1.0), Number::Int64(-1), Number::Float64(-1.0),
+                    Number::Float64(f64::NAN), Number::Float64(f64::from_bits(0xfff8000000000000)), Number::Float64(f64::INFINITY), Number::Float64(f64::NEG_INFINITY),
+                    Number::UInt64(9007199254740992), Number::UInt64(9007199254740993), Number::Float64(9007199254740992.0), Number::Int64(i64::MIN), Number::UInt64(u64::MAX), Number::Float64(18446744073709551616.0)];
+                for x in &nums { for y in &nums {
+                    for wrap in 0..3 {
+                        let w = |n: &Number| -> Value<'static> { let v = Value::Number(n.clone()); match wrap { 0 => v, 1 => Value::Array(vec![Value::Null, v]), _ => { let mut m = std::collections::BTreeMap::new(); m.insert("k".to_string(), v); m.insert("z".to_string(), Value::Bool(true)); Value::Object(m) } } };
+                        let (ha, hb) = (hex(&w(x).to_vec()), hex(&w(y).to_vec()));
+                        let opn = if prop == "C04" { "cmp" } else { "contains" };
+                        o.push(format!("spec:{} {} {}", opn, ha, hb)); o.push(format!("{} {} {}", opn, ha, hb));
+                    }
+                } }
+            }
             for _ in 0..scale(tier, 700, 20000) {
                 let a = gen_value(&mut r, &c, 0);
                 let b = derive(&mut r, &c, &a);
@@ -904,6 +921,17 @@ pub fn gen_sub(prop: &str, tier: &str, seed: u64) -> Out {
             }
             for t in ["\"\\u\"", "{\"k\":\"\\u\"}", "\"\\u{1234\"", "\"\\uD83D\\u\"", "\"\\uD83D\\u{1234\"", "\"\\u{\"", "\"\\uD83D\\\"", "{\"\\u\":1}"] {
                 o.push(format!("jparse {}", hex(t.as_bytes()))); o.push(format!("jreject {}", hex(t.as_bytes())));
+            }
+            // every non-hex look-alike in every digit position of a \\u escape (plain, braced, and as the low half of a pair)
+            for bad in ["+", "-", " ", "g", "G", ":", "/", "@", "`", "_", "x", ".", "\u{e9}"] {
+                for pos in 0..4 {
+                    let mut d: Vec<String> = "0041".chars().map(|ch| ch.to_string()).collect();
+                    d[pos] = bad.to_string();
+                    let h: String = d.concat();
+                    for t in [format!("\"\\u{}\"", h), format!("\"\\u{{{}}}\"", h), format!("\"\\uD83D\\u{}\"", h), format!("{{\"\\u{}\":1}}", h)] {
+                        o.push(format!("jparse {}", hex(t.as_bytes()))); o.push(format!("jreject {}", hex(t.as_bytes())));
+                    }
+                }
             }
             // escaped white space near the end of the text
             for body in ["{\"a\":1}", "[1,2]", "7", "\"s\"", "null"] {
